@@ -240,7 +240,8 @@ PLAN_VALS = [(0, 0), (0, 1), (1, 0)]
 
 def plan_ops(cap):
     return [{"op": "append", "v": list(v), "n": 0} for v in PLAN_VALS] + [{"op": "remove", "v": [0, 0], "n": n} for n in range(1, cap + 1)] + \
-           [{"op": "clear", "v": [0, 0], "n": 0}, {"op": "dataclear", "v": [0, 0], "n": 0}]
+           [{"op": "clear", "v": [0, 0], "n": 0}, {"op": "dataclear", "v": [0, 0], "n": 0}] + \
+           [{"op": "sweep", "v": [0, 0], "n": m} for m in range(1, 2 ** cap)]
 
 
 PLAN_DO = 'Do(o) == Enabled(s, o) /\\ LET a == Apply(s, o) IN s\' = a.s /\\ lastop\' = [op |-> o.op, v |-> o.v, n |-> o.n, r |-> a.r]'
@@ -251,6 +252,8 @@ def plan_line(o):
         return "plan append %d %d" % (o["v"][0], o["v"][1])
     if o["op"] == "remove":
         return "plan remove %d" % o["n"]
+    if o["op"] == "sweep":
+        return "plan sweep %d" % o["n"]
     return "plan " + o["op"]
 
 
@@ -272,8 +275,10 @@ def plan_random_script(cap, rng, nops):
         c = rng.random()
         if c < 0.5:
             lines.append("plan append %d %d" % (rng.randrange(2), rng.randrange(2)))
-        elif c < 0.9:
+        elif c < 0.8:
             lines.append("plan remove %d" % rng.randrange(1, min(cap, 12) + 2))
+        elif c < 0.9:
+            lines.append("plan sweep %d" % rng.randrange(1, 2 ** min(cap, 16)))
         elif c < 0.96:
             lines.append("plan clear")
         else:
